@@ -294,6 +294,7 @@ def make_config(rng, backend):
         'bufsize': rng.choice([512, 1024, 4096, 8192]),
         'launch_limit': 3,
         'backend': backend,
+        'jobs': rng.choice([1, 2, 4]),
     }
 
 
@@ -333,7 +334,7 @@ def execute(root, proj, cfg, ops, online=None):
 def run_case(seed, root, params=None):
     params = params or {}
     rng = random.Random(seed)
-    backend = rng.choice(params.get('backends', ['make']))
+    backend = rng.choice(params.get('backends', ['make', 'ninja']))
     cfg = make_config(rng, backend)
     cfg['seed'] = seed
     cfg['gate_aux'] = params.get('gate_aux', True)
@@ -428,7 +429,7 @@ def summarise(case):
     return {
         'seed': case['seed'],
         'violations': [v.to_json() for v in hist.violations],
-        'stats': hist.sim.stats,
+        'stats': dict(hist.sim.stats, **{'backend.' + proj.backend: 1}),
         'nontrivial': hist.nontrivial,
         'shape': hashlib.sha256(shape.encode()).hexdigest()[:16],
         'digest': hashlib.sha256(repr(hist.trace).encode()).hexdigest()[:16],
